@@ -5,6 +5,7 @@ package gosym
 
 import (
 	"fmt"
+	"os"
 	"go/types"
 	"sort"
 	"strings"
@@ -54,6 +55,7 @@ type pathState struct {
 	unsatAsserts int
 	knownHit  map[string]bool
 	labels    map[string]string
+	noteBytes map[string][]value
 	kfCandidates []*Finding
 }
 
@@ -69,6 +71,7 @@ func (in *Interp) newPath(decs []decision, checkAt int) *pathState {
 		linked:   map[*decAtom]bool{},
 		knownHit: map[string]bool{},
 		labels:   map[string]string{},
+		noteBytes: map[string][]value{},
 	}
 }
 
@@ -296,7 +299,9 @@ func (fr *frame) concretize(s symv) int64 {
 			c = p.decs[idx].payload
 			p.pos++
 		} else {
-			// obtain a model value
+			if progress {
+				fmt.Fprintf(os.Stderr, "concretize %s at %s\n", trunc(t.String(), 200), fr.where())
+			}
 			c = in.modelValue(t)
 			idx = in.record(decision{alt: 0, nalts: 2, unchecked: true, payload: c})
 		}
@@ -336,6 +341,13 @@ func (in *Interp) modelValue(t *Term) uint64 {
 	}
 	val := strings.TrimSuffix(strings.TrimSpace(line[i+1:]), "))")
 	return parseValue(strings.TrimSpace(val))
+}
+
+func trunc(s string, n int) string {
+	if len(s) > n {
+		return s[:n] + "…"
+	}
+	return s
 }
 
 func maxInt(a, b int) int {
